@@ -110,14 +110,22 @@ def run_verus(unit_name, tier, seed):
            "--rlimit", str(rlimit), "--multiple-errors", "5", "--smt-option", f"smt.random_seed={seed}"]
     # hard wall-clock limit: some solver loops (nonlinear arithmetic) do not consume the resource limit; a hung query is undecided, not a hang
     limit_s = int(os.environ.get("VERIF_VERUS_TIMEOUT", "0")) or (2400 if tier == "thorough" else 600)
-    p = sh_timeout(cmd, limit_s, cwd=os.path.join(ROOT, "build"))
+    p = sh_timeout(cmd, limit_s, cwd=os.path.dirname(meta["path"]))
     if p is None:
         # such loops depend on the solver's seed: one retry with another seed before giving up
         cmd = cmd[:-1] + [f"smt.random_seed={seed + 1000}"]
-        p = sh_timeout(cmd, limit_s, cwd=os.path.join(ROOT, "build"))
+        p = sh_timeout(cmd, limit_s, cwd=os.path.dirname(meta["path"]))
     if p is None:
         return {"unit": unit_name, "fatal": f"verus did not finish within {limit_s} s under two solver seeds (solver loop that does not consume the resource limit): undecided", "meta": meta, "wall_s": time.time() - t0}
-    out = {"unit": unit_name, "meta": meta, "cmd": " ".join(cmd), "rc": p.returncode}
+    # keep the last generated text of every unit at a stable place for inspection (atomic: concurrent checks write the same text)
+    stable = os.path.join(ROOT, "build", unit_name + ".rs")
+    try:
+        import shutil
+        shutil.copyfile(meta["path"], stable + f".{os.getpid()}.tmp")
+        os.replace(stable + f".{os.getpid()}.tmp", stable)
+    except OSError:
+        pass
+    out = {"unit": unit_name, "meta": meta, "cmd": " ".join(cmd).replace(meta["path"], stable), "rc": p.returncode}
     try:
         j = json.loads(p.stdout)
     except Exception:
@@ -628,7 +636,14 @@ def cmd_unit(args):
     return 0
 
 
+def _cleanup_run_dir():
+    import shutil
+    shutil.rmtree(os.path.join(ROOT, "build", f"run-{os.getpid()}"), ignore_errors=True)
+
+
 def main():
+    import atexit
+    atexit.register(_cleanup_run_dir)
     ap = argparse.ArgumentParser()
     sub = ap.add_subparsers(dest="cmd")
     sub.add_parser("setup")
